@@ -12,7 +12,7 @@ from ..skeleton import TRUE, Env, T, func_term, show
 from ..skelrules import check_skeleton, spec_from_src
 
 PROP = "C11"
-FLOORS = {"C11-Q2": 1, "C11-P1": 30, "C11-T1": 34, "C11-Q1": 7, "C11-I1": 3, "C11-D1": 20}
+FLOORS = {"C11-RS": 7, "C11-PR": 6, "C11-Q2": 1, "C11-P1": 30, "C11-T1": 34, "C11-Q1": 7, "C11-I1": 3, "C11-D1": 20}
 
 EXPLANATION = (
     "Decided: (a) each counting form equals the size of its listing form for the pairs that are derived by construction (P1: count_X = Count(self.L(args)) "
@@ -115,6 +115,8 @@ def run(ctx: Ctx) -> None:
     ctx.run(oneshot.report, ctx, "C11-I1", ["permuta.permutils.statistics"], ["PermutationStatistic.distribution_for_length"])
     ctx.run(rule_d1, ctx)
     ctx.run(rule_q2, ctx)
+    ctx.run(rule_prime, ctx)
+    ctx.run(rule_records, ctx)
 
 
 # ------------------------------------------------------------------ P1
@@ -454,6 +456,217 @@ def rule_q2(ctx: Ctx) -> None:
     ctx.ok("C11-Q2", ps.where, f"statistic objects are stateless beyond (name, func): {stores} attribute stores, all in the constructor; no class-level mutable container")
 
 
+def rule_prime(ctx: Ctx) -> None:
+    """The primality helper is the 6k+-1 trial division: small cases, multiples of 2 and 3 excluded, then every
+    candidate divisor d = 5, 7, 11, 13, ... (i and i + 2, step 6) with d*d <= n.  Each piece is necessary:
+    a strict bound misses squares of primes, another start/step/offset skips candidates."""
+    from ..affine import NotAffine, Poly, poly_of
+    from ..core import inlined_text
+
+    mod = ctx.repo.module("permuta.misc.math")
+    f = mod.functions.get("is_prime")
+    if f is None:
+        raise AnalysisError("permuta.misc.math.is_prime vanished")
+    n = f.params[0]
+    body = f.body
+    loops = [st for st in body if isinstance(st, ast.While)]
+    if len(loops) != 1:
+        raise AnalysisError(f"{f.where}: not a single trial-division loop")
+    lp = loops[0]
+    pre = body[: body.index(lp)]
+    post = body[body.index(lp) + 1:]
+    ok = True
+    # small cases and the 2/3 filter
+    small = [st for st in pre if isinstance(st, ast.If)]
+    txt = [(unparse(st.test), unparse(st.body[0]) if len(st.body) == 1 else "") for st in small]
+    if (f"{n} <= 3", f"return {n} > 1") in txt or (f"{n} < 4", f"return {n} > 1") in txt or (f"{n} <= 3", f"return {n} >= 2") in txt:
+        ctx.ok("C11-PR", f.where, "n <= 3: prime iff n > 1", small[0], f)
+    else:
+        raise AnalysisError(f"{f.where}: small-case branch not recognised")
+    filt = [t for t in txt if t[1] == "return False"]
+    if any(set(t[0].split(" or ")) == {f"{n} % 2 == 0", f"{n} % 3 == 0"} for t in filt):
+        ctx.ok("C11-PR", f.where, "multiples of 2 and 3 are rejected before the loop", small[-1], f)
+    else:
+        ctx.violation("C11-PR", f, small[-1] if small else f.node, "multiples of 2 and of 3 are not both rejected before the 6k+-1 loop (the loop never tries 2 or 3)")
+        ok = False
+    # start value
+    starts = [st for st in pre if isinstance(st, ast.Assign) and isinstance(st.targets[0], ast.Name)]
+    if len(starts) != 1:
+        raise AnalysisError(f"{f.where}: loop variable initialisation not recognised")
+    i = starts[0].targets[0].id
+    if unparse(starts[0].value) != "5":
+        ctx.violation("C11-PR", f, starts[0], f"trial division starts at {unparse(starts[0].value)}; the 6k+-1 candidates start at 5")
+        ok = False
+    # bound: i*i <= n
+    t = lp.test
+    bound_ok = None
+    if isinstance(t, ast.Compare) and len(t.ops) == 1:
+        l, r, op = t.left, t.comparators[0], t.ops[0]
+        try:
+            pl, pr = poly_of(_pow_to_mul(l), {i: Poly.sym("i"), n: Poly.sym("N")}), poly_of(_pow_to_mul(r), {i: Poly.sym("i"), n: Poly.sym("N")})
+            sq, nn = Poly.sym("i") * Poly.sym("i"), Poly.sym("N")
+            if (pl, pr) == (sq, nn):
+                bound_ok = isinstance(op, ast.LtE)
+                strict = isinstance(op, ast.Lt)
+            elif (pl, pr) == (nn, sq):
+                bound_ok = isinstance(op, ast.GtE)
+                strict = isinstance(op, ast.Gt)
+            else:
+                strict = False
+            if bound_ok is False and strict:
+                ctx.violation("C11-PR", f, lp, f"trial division runs while `{unparse(t)}`: a divisor d with d*d == n is never tried, so squares of primes (25, 49, 121, ...) are reported prime")
+                ok = False
+            elif bound_ok is None:
+                raise AnalysisError(f"{f.where}: loop bound `{unparse(t)}` not recognised")
+            elif bound_ok is False:
+                raise AnalysisError(f"{f.where}: loop bound `{unparse(t)}` not recognised")
+        except NotAffine:
+            raise AnalysisError(f"{f.where}: loop bound `{unparse(t)}` not recognised")
+    else:
+        raise AnalysisError(f"{f.where}: loop bound `{unparse(t)}` not recognised")
+    if bound_ok:
+        ctx.ok("C11-PR", f.where, "every candidate d with d*d <= n is tried", lp, f)
+    # body: n % i == 0 or n % (i + 2) == 0 -> False ; i += 6
+    tests = [st for st in lp.body if isinstance(st, ast.If)]
+    steps = [st for st in lp.body if isinstance(st, ast.AugAssign)]
+    if len(tests) == 1 and len(steps) == 1:
+        parts = set(unparse(tests[0].test).split(" or "))
+        if parts == {f"{n} % {i} == 0", f"{n} % ({i} + 2) == 0"} and unparse(tests[0].body[0]) == "return False":
+            ctx.ok("C11-PR", f.where, "each round tries i and i + 2", tests[0], f)
+        else:
+            ctx.violation("C11-PR", f, tests[0], f"a round tests `{unparse(tests[0].test)}`; the candidates of a round are i and i + 2 (6k-1 and 6k+1)")
+            ok = False
+        if isinstance(steps[0].op, ast.Add) and unparse(steps[0].value) == "6" and unparse(steps[0].target) == i:
+            ctx.ok("C11-PR", f.where, "step 6", steps[0], f)
+        else:
+            ctx.violation("C11-PR", f, steps[0], f"candidates advance by `{unparse(steps[0])}`; the 6k+-1 wheel advances by 6")
+            ok = False
+    else:
+        raise AnalysisError(f"{f.where}: loop body not recognised")
+    if not (len(post) == 1 and unparse(post[0]) == "return True"):
+        ctx.violation("C11-PR", f, post[0] if post else lp, "a number without a divisor found is not reported prime")
+    _ = ok
+
+
+RECORDS = {"ltrmin": ("min", "ltr"), "ltrmax": ("max", "ltr"), "_rtlmin_reverse_list": ("min", "rtl"), "_rtlmax_reverse_list": ("max", "rtl")}
+
+
+def rule_records(ctx: Ctx) -> None:
+    """Left-to-right / right-to-left minima and maxima are one running-extreme scan with three slots:
+    scan direction, comparison direction (with a sentinel beyond every entry) and the reported position."""
+    from ..affine import I, N, NM1, NotAffine, Poly, poly_of
+    from ..core import flow_env, subst_names
+
+    repo = ctx.repo
+    for name, (kind, direction) in RECORDS.items():
+        f = repo.method("Perm", name)
+        if f is None:
+            ctx.note(f"C11-RS: Perm.{name} not present")
+            continue
+        ctx.run(check_record, ctx, f, kind, direction)
+    for name, inner in (("rtlmin", "_rtlmin_reverse_list"), ("rtlmax", "_rtlmax_reverse_list")):
+        f = repo.method("Perm", name)
+        if f is not None and repo.method("Perm", inner) is not None:
+            ctx.run(check_skeleton, ctx, "C11-RS", f, [f"yield from reversed(self.{inner}())", f"return reversed(self.{inner}())", f"return iter(reversed(self.{inner}()))"],
+                    f"{name} = the reverse-scan records in increasing position order", required_calls=[inner])
+    od = repo.method("Perm", "order")
+    if od is not None:
+        ctx.run(check_order, ctx, od)
+
+
+def check_record(ctx: Ctx, f: FuncInfo, kind: str, direction: str) -> None:
+    from ..affine import I, N, NM1, NotAffine, Poly, poly_of
+    from ..core import flow_env, subst_names
+
+    self_n = f.params[0]
+    loops = [st for st in f.body if isinstance(st, ast.For)]
+    if len(loops) != 1:
+        raise AnalysisError(f"{f.where}: scan loop not recognised")
+    lp = loops[0]
+    env = flow_env(f, lp)
+    it = unparse(lp.iter)
+    want_it = f"enumerate({self_n})" if direction == "ltr" else f"enumerate(reversed({self_n}))"
+    if it != want_it:
+        ctx.violation("C11-RS", f, lp, f"{f.name} scans `{it}`; {'left-to-right' if direction == 'ltr' else 'right-to-left'} records need `{want_it}`")
+        return
+    idx, val = [unparse(e) for e in lp.target.elts]
+    if len(lp.body) != 1 or not isinstance(lp.body[0], ast.If) or lp.body[0].orelse:
+        raise AnalysisError(f"{f.where}: loop body not recognised")
+    iff = lp.body[0]
+    t = iff.test
+    if not (isinstance(t, ast.Compare) and len(t.ops) == 1):
+        raise AnalysisError(f"{f.where}: record test not recognised")
+    l, r, op = unparse(t.left), unparse(t.comparators[0]), type(t.ops[0])
+    acc = r if l == val else l if r == val else None
+    if acc is None:
+        raise AnalysisError(f"{f.where}: record test `{unparse(t)}` does not compare the entry with the running extreme")
+    less = op in (ast.Lt, ast.LtE) if l == val else op in (ast.Gt, ast.GtE)
+    if (kind == "min") != less:
+        ctx.violation("C11-RS", f, iff, f"{f.name} records an entry when `{unparse(t)}`; a running {'minimum' if kind == 'min' else 'maximum'} is updated by entries that are {'smaller' if kind == 'min' else 'larger'}")
+        return
+    # sentinel
+    init = env.get(acc)
+    if init is None:
+        raise AnalysisError(f"{f.where}: initial value of `{acc}` not found")
+    itxt = unparse(init)
+    good_init = itxt in (f"len({self_n})", f"len({self_n}) + 1") if kind == "min" else itxt in ("-1",)
+    if not good_init:
+        ctx.violation("C11-RS", f, lp, f"the running {'minimum' if kind == 'min' else 'maximum'} starts at `{itxt}`; it must start beyond every entry ({'len(self)' if kind == 'min' else '-1'}) so that the first entry is always a record")
+        return
+    upd = [st for st in iff.body if isinstance(st, ast.Assign) and unparse(st.targets[0]) == acc]
+    if len(upd) != 1 or unparse(upd[0].value) != val:
+        ctx.violation("C11-RS", f, iff, f"the running extreme `{acc}` is not updated to the record entry")
+        return
+    rep = [n for st in iff.body for n in ast.walk(st) if isinstance(n, ast.Yield) or (isinstance(n, ast.Call) and isinstance(n.func, ast.Attribute) and n.func.attr == "append")]
+    if len(rep) != 1:
+        raise AnalysisError(f"{f.where}: reported position not recognised")
+    pos = rep[0].value if isinstance(rep[0], ast.Yield) else rep[0].args[0]
+    penv = {idx: I}
+    for k, v in env.items():
+        if unparse(v) == f"len({self_n})":
+            penv[k] = N
+    try:
+        p = poly_of(pos, penv, (self_n,))
+    except NotAffine as exc:
+        raise AnalysisError(f"{f.where}: reported position `{unparse(pos)}` not affine ({exc})")
+    want = I if direction == "ltr" else NM1 - I
+    if p == want:
+        ctx.ok("C11-RS", f.where, f"{f.name}: running {kind} over {want_it}, sentinel {itxt}, reports position {p!r}", lp, f)
+    else:
+        ctx.violation("C11-RS", f, rep[0] if hasattr(rep[0], 'lineno') else iff, f"{f.name} reports position {p!r} for the entry met at scan index I; the position in the permutation is {want!r}")
+
+
+def check_order(ctx: Ctx, f: FuncInfo) -> None:
+    body = f.body
+    loops = [st for st in body if isinstance(st, ast.For)]
+    rets = [st for st in body if isinstance(st, ast.Return)]
+    inits = [st for st in body if isinstance(st, ast.Assign)]
+    if len(loops) != 1 or len(rets) != 1 or len(inits) != 1:
+        raise AnalysisError(f"{f.where}: lcm fold not recognised")
+    acc = unparse(inits[0].targets[0])
+    lp = loops[0]
+    c = unparse(lp.target)
+    if unparse(inits[0].value) != "1":
+        ctx.violation("C11-RS", f, inits[0], "the order (lcm of the cycle lengths) must start from 1")
+        return
+    if unparse(lp.iter) not in (f"map(len, {f.params[0]}.cycle_decomp())", f"(len(x) for x in {f.params[0]}.cycle_decomp())"):
+        raise AnalysisError(f"{f.where}: fold source `{unparse(lp.iter)}` not recognised")
+    if len(lp.body) != 1 or not isinstance(lp.body[0], ast.Assign) or unparse(lp.body[0].targets[0]) != acc:
+        raise AnalysisError(f"{f.where}: fold step not recognised")
+    step = unparse(lp.body[0].value).replace(" ", "")
+    good = {f"{acc}*{c}//math.gcd({acc},{c})", f"{c}*{acc}//math.gcd({acc},{c})", f"{acc}*{c}//math.gcd({c},{acc})", f"{acc}*{c}//gcd({acc},{c})", f"math.lcm({acc},{c})", f"{acc}//math.gcd({acc},{c})*{c}"}
+    if step in good and unparse(rets[0].value) == acc:
+        ctx.ok("C11-RS", f.where, "order = lcm of the cycle lengths (fold acc*c // gcd(acc, c) from 1)", lp, f)
+    else:
+        ctx.violation("C11-RS", f, lp.body[0], f"order folds the cycle lengths with `{unparse(lp.body[0].value)}`; the order of a permutation is the least common multiple of its cycle lengths")
+
+
+def _pow_to_mul(node: ast.AST) -> ast.AST:
+    if isinstance(node, ast.BinOp) and isinstance(node.op, ast.Pow) and isinstance(node.right, ast.Constant) and node.right.value == 2:
+        return ast.BinOp(left=node.left, op=ast.Mult(), right=node.left)
+    return node
+
+
 def rule_d1(ctx: Ctx) -> None:
     repo = ctx.repo
     for name, specs, what in DEFS:
@@ -595,6 +808,19 @@ def _variants():
         V("distribution-filtered", replace_expr(ST, "PermutationStatistic.distribution_for_length", "Counter((self.func(p) for p in iterator))", "Counter((self.func(p) for p in iterator if len(p) > 1))"), "fire", "C11-Q1"),
         V("distribution-wrong-level", replace_expr(ST, "PermutationStatistic.distribution_for_length", "perm_class.of_length(n)", "perm_class.of_length(n + 1)"), "fire", "C11-Q1"),
         V("distribution-memo-on-object", insert_stmt(ST, "PermutationStatistic.distribution_for_length", "iterator = perm_class.of_length(n) if perm_class else Perm.of_length(n)", "self._last_n = n", "before"), "undecided", note="unreviewed state on a statistic object"),
+        V("ltrmax-sentinel-0", replace_stmt(PE, "Perm.ltrmax", "max_val = -1", "max_val = 0"), "fire", "C11-RS"),
+        V("ltrmin-finds-maxima", replace_expr(PE, "Perm.ltrmin", "val < min_val", "val > min_val"), "fire", "C11-RS"),
+        V("rtlmin-position-unreflected", replace_expr(PE, "Perm._rtlmin_reverse_list", "lis.append(n - idx - 1)", "lis.append(idx)"), "fire", "C11-RS"),
+        V("rtlmax-scans-forward", replace_expr(PE, "Perm._rtlmax_reverse_list", "enumerate(reversed(self))", "enumerate(self)"), "fire", "C11-RS"),
+        V("rtlmin-not-reversed", replace_expr(PE, "Perm.rtlmin", "reversed(self._rtlmin_reverse_list())", "self._rtlmin_reverse_list()"), "fire-or-undecided", "C11-RS"),
+        V("order-product", replace_expr(PE, "Perm.order", "acc * cycle // math.gcd(acc, cycle)", "acc * cycle"), "fire", "C11-RS"),
+        V("ltrmin-nonstrict", replace_expr(PE, "Perm.ltrmin", "val < min_val", "val <= min_val"), "silent", note="entries are distinct: the non-strict test is the same scan"),
+        V("prime-strict-bound", replace_expr("permuta/misc/math.py", "is_prime", "i ** 2 <= n", "i * i < n"), "fire", "C11-PR"),
+        V("prime-step-4", replace_stmt("permuta/misc/math.py", "is_prime", "i += 6", "i += 4"), "fire", "C11-PR"),
+        V("prime-offset-4", replace_expr("permuta/misc/math.py", "is_prime", "n % (i + 2) == 0", "n % (i + 4) == 0"), "fire", "C11-PR"),
+        V("prime-no-3-filter", replace_expr("permuta/misc/math.py", "is_prime", "n % 2 == 0 or n % 3 == 0", "n % 2 == 0"), "fire", "C11-PR"),
+        V("prime-bound-mul", replace_expr("permuta/misc/math.py", "is_prime", "i ** 2 <= n", "i * i <= n"), "silent"),
+        V("prime-bound-flipped", replace_expr("permuta/misc/math.py", "is_prime", "i ** 2 <= n", "n >= i * i"), "silent"),
         V("peaks-nonstrict", replace_expr(PE, "Perm.peaks", "prev < curr > nxt", "prev < curr >= nxt"), "fire", "C11-D1"),
         V("valleys-as-peaks", replace_expr(PE, "Perm.valleys", "prev > curr < nxt", "prev < curr > nxt"), "fire", "C11-D1"),
         V("peaks-index-shift", replace_expr(PE, "Perm.peaks", "idx + 1", "idx"), "fire", "C11-D1"),
